@@ -29,6 +29,10 @@ INFO = {
             'model-based property testing of swap2'),
     'C14': ('exploration', 'Generated histories with a RELOCATE step (memcpy the container object to fresh storage, poison and free the source) on every container type declaring trivially_relocatable; model and ledgers continue on the copy.', '3/C14',
             'stateful property testing with injected byte-wise relocation'),
+    'C04': ('exploration', 'Generated histories over pools of SmallSets (N in {1,2,3,4,5,8}, 5 comparators, std::set and FlatSet backings, sibling sets with another N and comparator) against std::set<int,ModelCmp>: contents as sets, membership of every key, booleans, counts, all six comparisons after every operation.', '3/C04',
+            'model-based stateful property testing (std::set reference model)'),
+    'C11': ('exploration', 'The SmallSet histories with erase(pos)/erase(range)/erase-while-iterating weighted up; after every operation forward and reverse walks must visit exactly the model elements once, returned iterators equal end() iff they designate nothing, the standard erase loop must terminate having visited every element once.', '3/C11',
+            'stateful property testing of the iterator contract against a reference model'),
 }
 NOTE = 'Trusted base: libstdc++ reference containers, the harness (harness/*.hpp), g++ 12 sanitizers, rapidcheck. Checks rebuild against /repo/include (content hash) on every run.'
 
